@@ -79,7 +79,9 @@ func c01hDrawReqs(t *rapid.T, maxReq int, withFetch bool) []c01hReq {
 	n := rapid.IntRange(1, maxReq).Draw(t, "nreq")
 	var reqs []c01hReq
 	for i := 0; i < n; i++ {
-		r := c01hReq{Acks: rapid.SampledFrom([]int16{1, -1, -1, 1, 0}).Draw(t, "acks")}
+		// acks: the broker does not validate the field; every non-zero value is answered and,
+		// in flush-on-ack mode, has to be durable before the answer
+		r := c01hReq{Acks: rapid.SampledFrom([]int16{1, -1, -1, 1, 0, 2, -2, 32767}).Draw(t, "acks")}
 		np := rapid.IntRange(1, 2).Draw(t, "nparts")
 		first := int32(rapid.IntRange(0, 1).Draw(t, "part"))
 		for k := 0; k < np; k++ {
